@@ -11,7 +11,7 @@
 // entry (24 + 16 = 40 bytes) fits the reply buffer.  Every record of the batch is passed over, nothing is offered to the callback, the reply
 // is empty and the client takes that for the end of the directory: a non-empty directory is listed as empty.
 // (Unit ptreaddir proves that a batch is empty only at the end of the directory - [C16.do_readdir.resume] - but the VISIBLE part of a
-// non-empty batch can be empty; the cross-call lemma states this as its `progress` hypothesis.)
+// non-empty batch can be empty: the obligation [C16.do_readdir.progress] of that unit fails for exactly this case.)
 use std::fs;
 
 use fuse_backend_rs::api::filesystem::{Context, DirEntry, FileSystem};
